@@ -7,6 +7,13 @@ import DSymVerif.Proofs.Simplify
 namespace DSymVerif.Simp
 open DSymVerif DSymVerif.DS
 
+/-- no operation has a fixed point (a fixed point of s_i is a mirror: boundary) -/
+def Loopless (ds : DSetData) : Prop := ∀ i d, i ≤ ds.dim → 1 ≤ d → d ≤ ds.size → ds.opU i d ≠ d
+
+/-- far operations differ everywhere: r_ij = 2 exactly (r = 1 would need a branching number 2) -/
+def FarDiffer (ds : DSetData) : Prop :=
+  ∀ i j d, i + 1 < j → j ≤ ds.dim → 1 ≤ d → d ≤ ds.size → ds.opU i d ≠ ds.opU j d
+
 theorem bind_ok {α β} {x : Outcome α} {f : α → Outcome β} {b : β} (h : (x >>= f) = .ok b) :
     ∃ a, x = .ok a ∧ f a = .ok b := by
   cases x with
@@ -134,6 +141,11 @@ theorem cfN_comm (k : Nat) (hk : k < 8) :
   have : k = 0 ∨ k = 1 ∨ k = 2 ∨ k = 3 ∨ k = 4 ∨ k = 5 ∨ k = 6 ∨ k = 7 := by omega
   rcases this with rfl | rfl | rfl | rfl | rfl | rfl | rfl | rfl <;> decide
 
+theorem cfN_ne (k : Nat) (hk : k < 8) :
+    cfN0 k ≠ k ∧ cfN2 k ≠ k ∧ cfN3 k ≠ k ∧ cfN0 k ≠ cfN2 k ∧ cfN0 k ≠ cfN3 k := by
+  have : k = 0 ∨ k = 1 ∨ k = 2 ∨ k = 3 ∨ k = 4 ∨ k = 5 ∨ k = 6 ∨ k = 7 := by omega
+  rcases this with rfl | rfl | rfl | rfl | rfl | rfl | rfl | rfl <;> decide
+
 /-- **`cut_face`: the eight new chambers satisfy the commutation relations.**  If `cut_face`
     returns on a complete 3-dimensional D-set (valid chamber arguments), the result is complete
     with involutive operations, has 8 more chambers, keeps operations 0, 2, 3 of the old
@@ -146,7 +158,7 @@ theorem cutFace_commutes {ds s : DSetData} (hv : ValidSet ds) (hdim : ds.dim = 3
     (∀ c, ds.size < c → c ≤ ds.size + 8 →
       s.opU 2 (s.opU 0 c) = s.opU 0 (s.opU 2 c) ∧ s.opU 3 (s.opU 0 c) = s.opU 0 (s.opU 3 c) ∧
       s.opU 3 (s.opU 1 c) = s.opU 1 (s.opU 3 c)) ∧
-    (FarCommute ds → FarCommute s) := by
+    (FarCommute ds → FarCommute s) ∧ (Loopless ds → Loopless s) ∧ (FarDiffer ds → FarDiffer s) := by
   unfold cutFace at h
   obtain ⟨g, hg, h⟩ := bind_ok h
   obtain ⟨o2, ho2, h⟩ := bind_ok h
@@ -274,7 +286,67 @@ theorem cutFace_commutes {ds s : DSetData} (hv : ValidSet ds) (hdim : ds.dim = 3
     · rw [Z0 k hk, Z3 _ hl.1, Z3 k hk, Z0 _ hl.2.2, hc.2]
     · obtain ⟨ho1, ho2, ho3⟩ := hold k hk
       rw [Z1 k hk, B 3 _ (by omega) (by omega) ho1 ho2, ho3, Z3 k hk, Z1 _ hl.2.2]
-  refine ⟨f3.valid, s3, m3, B, hnewc, ?_⟩
+  have classify : ∀ v, (∃ k, k < 8 ∧ v = [d1, d2, o2, o3, o4, o5, o6, o7].getD k 0) ∨
+      (v ≠ d1 ∧ v ≠ d2 ∧ v ≠ o2 ∧ v ≠ o3 ∧ v ≠ o4 ∧ v ≠ o5 ∧ v ≠ o6 ∧ v ≠ o7) := by
+    intro v
+    by_cases h8 : v = d1 ∨ v = d2 ∨ v = o2 ∨ v = o3 ∨ v = o4 ∨ v = o5 ∨ v = o6 ∨ v = o7
+    · left
+      rcases h8 with h | h | h | h | h | h | h | h
+      · exact ⟨0, by omega, h⟩
+      · exact ⟨1, by omega, h⟩
+      · exact ⟨2, by omega, h⟩
+      · exact ⟨3, by omega, h⟩
+      · exact ⟨4, by omega, h⟩
+      · exact ⟨5, by omega, h⟩
+      · exact ⟨6, by omega, h⟩
+      · exact ⟨7, by omega, h⟩
+    · right
+      simp only [not_or] at h8
+      exact h8
+  refine ⟨f3.valid, s3, m3, B, hnewc, ?_, ?_, ?_⟩
+  rotate_left
+  · -- loopless
+    intro hl i v hi hv1 hv2
+    rw [m3] at hi; rw [s3] at hv2
+    by_cases hvn : ds.size < v
+    · obtain ⟨k, hk, rfl⟩ : ∃ k, k < 8 ∧ v = ds.size + 1 + k := ⟨v - ds.size - 1, by omega, by omega⟩
+      have hne := cfN_ne k hk
+      have : i = 0 ∨ i = 1 ∨ i = 2 ∨ i = 3 := by omega
+      rcases this with rfl | rfl | rfl | rfl
+      · rw [Z0 k hk]; omega
+      · rw [Z1 k hk]; have := (hold k hk).2.1; omega
+      · rw [Z2 k hk]; omega
+      · rw [Z3 k hk]; omega
+    · have hvo : v ≤ ds.size := by omega
+      by_cases hi1 : i = 1
+      · subst hi1
+        rcases classify v with ⟨k, hk, hvk⟩ | ⟨n0, n1, n2, n3, n4, n5, n6, n7⟩
+        · rw [hvk, Z1' k hk]; have := (hold k hk).2.1; omega
+        · rw [U1 v hv1 hvo n0 n1 n2 n3 n4 n5 n6 n7]; exact hl 1 v (by omega) hv1 hvo
+      · rw [B i v hi hi1 hv1 hvo]; exact hl i v (by omega) hv1 hvo
+  · -- far operations differ
+    intro hd a b v hab hb hv1 hv2
+    rw [m3] at hb; rw [s3] at hv2
+    have hab' : (a = 0 ∧ b = 2) ∨ (a = 0 ∧ b = 3) ∨ (a = 1 ∧ b = 3) := by omega
+    by_cases hvn : ds.size < v
+    · obtain ⟨k, hk, rfl⟩ : ∃ k, k < 8 ∧ v = ds.size + 1 + k := ⟨v - ds.size - 1, by omega, by omega⟩
+      have hne := cfN_ne k hk
+      rcases hab' with ⟨rfl, rfl⟩ | ⟨rfl, rfl⟩ | ⟨rfl, rfl⟩
+      · rw [Z0 k hk, Z2 k hk]; omega
+      · rw [Z0 k hk, Z3 k hk]; omega
+      · rw [Z1 k hk, Z3 k hk]; have := (hold k hk).2.1; omega
+    · have hvo : v ≤ ds.size := by omega
+      rcases hab' with ⟨rfl, rfl⟩ | ⟨rfl, rfl⟩ | ⟨rfl, rfl⟩
+      · rw [B 0 v (by omega) (by omega) hv1 hvo, B 2 v (by omega) (by omega) hv1 hvo]
+        exact hd 0 2 v (by omega) (by omega) hv1 hvo
+      · rw [B 0 v (by omega) (by omega) hv1 hvo, B 3 v (by omega) (by omega) hv1 hvo]
+        exact hd 0 3 v (by omega) (by omega) hv1 hvo
+      · rw [B 3 v (by omega) (by omega) hv1 hvo]
+        rcases classify v with ⟨k, hk, hvk⟩ | ⟨n0, n1, n2, n3, n4, n5, n6, n7⟩
+        · rw [hvk, Z1' k hk]
+          have := (hv.range 3 _ (by omega) (hold k hk).1 (hold k hk).2.1).2
+          omega
+        · rw [U1 v hv1 hvo n0 n1 n2 n3 n4 n5 n6 n7]; exact hd 1 3 v (by omega) (by omega) hv1 hvo
   intro hfc a b v hab hb hv1 hv2
   rw [m3] at hb
   rw [s3] at hv2
